@@ -55,6 +55,9 @@ func (c *CompileErrorList) Error() string {
 				if idx >= len(line) { // because newline was erased
 					idx = len(line) - 1
 				}
+				if idx < 0 { // nothing left of the line after the error start
+					idx = 0
+				}
 				after = line[idx:]
 				line = line[:idx]
 			}
